@@ -674,5 +674,5 @@ MUTANTS = [
          rules=["c.mutator-scope"]),
     dict(id="twin-copy-loop", module=_T, twin=True, old="			initial = tuple(vec.copy() for vec in initial)",
          new="			initial = tuple([v.copy() for v in initial])"),
-    dict(id="twin-rename-new-col", module=_T, twin=True, edits=[(_T, "new_col", "snapshot", 8)]),
+    dict(id="twin-rename-new-col", module=_T, twin=True, edits=[(_T, "new_col", "snapshot", 15)]),
 ]
